@@ -394,7 +394,8 @@ pub fn main(opts: &Opts) {
             }
         }
     }
-    let results = run_pool(jobs.clone(), 16, |(kind, doc)| {
+    // thread-level watchdog: a reader loop that never returns cannot be interrupted from inside
+    let results = run_pool_watchdog_opt(jobs.clone(), 16, std::time::Duration::from_secs(20), 8, |(kind, doc)| {
         let rt = tokio::runtime::Builder::new_current_thread().enable_all().build().unwrap();
         rt.block_on(async {
             let out = outcome(&kind, |id| doc_xml(id, &doc)).await;
@@ -405,6 +406,17 @@ pub fn main(opts: &Opts) {
         let text = doc_xml("1", doc);
         let toks = doc_tokens(doc);
         let case = format!("{kind};{toks}");
+        let out = match out {
+            Ok(o) => o,
+            Err(Stuck::Timeout) => {
+                sink.direct(&case, "violation reader-does-not-return".into());
+                "hang".to_string()
+            }
+            Err(Stuck::Skipped) => {
+                sink.count("skipped_after_8_stuck_threads");
+                continue;
+            }
+        };
         sink.corr(&case, format!("xml reply {cfg} {kind} {}", tokenize(&text)), out.clone());
         sink.spec(&case, format!("xml spec-reply {kind} {toks} {out}"));
         sink.count(&format!("kind.{kind}"));
